@@ -419,4 +419,46 @@ example : strScript ['a'] ['b'] = [CharOp.subst 'a' 'b'] ∧ strCost ['a'] ['b']
 example : (['a', 'b'].length ≠ 1 ∨ ['b'].length ≠ 1) ∧
     strScript ['a', 'b'] ['b'] = [CharOp.removed 'a', CharOp.kept 'b'] := by decide
 
+/-! ### Corollaries a reader of a string diff relies on: the amount marked does not depend on the direction of the
+    comparison nor on reading both strings backwards, and nothing is marked exactly when the strings are equal. -/
+
+/-- `lcs` is symmetric (from its characterisation as a maximum: `lcs_le`, `lcs_attained`). -/
+theorem lcs_comm (a b : List α) : lcs a b = lcs b a := by
+  apply Nat.le_antisymm
+  · obtain ⟨s, hs, hl⟩ := lcs_attained a b
+    rw [← hl]; exact lcs_le b a s ⟨hs.2, hs.1⟩
+  · obtain ⟨s, hs, hl⟩ := lcs_attained b a
+    rw [← hl]; exact lcs_le a b s ⟨hs.2, hs.1⟩
+
+/-- Editing `a` into `b` marks as many characters (removed + inserted) as editing `b` into `a`. -/
+theorem removed_plus_inserted_symm (a b : List α) :
+    removed (strScript a b) + inserted (strScript a b) = removed (strScript b a) + inserted (strScript b a) := by
+  rw [removed_plus_inserted_eq, removed_plus_inserted_eq, lcs_comm a b]; omega
+
+/-- Reading both strings backwards does not change the number of characters marked. -/
+theorem removed_plus_inserted_reverse (a b : List α) :
+    removed (strScript a.reverse b.reverse) + inserted (strScript a.reverse b.reverse) =
+      removed (strScript a b) + inserted (strScript a b) := by
+  rw [removed_plus_inserted_eq, removed_plus_inserted_eq, lcs_reverse]; simp
+
+/-- No character is marked removed or inserted exactly when the two strings are equal. -/
+theorem no_marks_iff_eq (a b : List α) :
+    removed (strScript a b) + inserted (strScript a b) = 0 ↔ a = b := by
+  constructor
+  · intro h
+    rw [removed_plus_inserted_eq] at h
+    have h1 := lcs_le_left a b
+    have h2 := lcs_le_right a b
+    obtain ⟨s, hs, hl⟩ := lcs_attained a b
+    have ea : s = a := hs.1.eq_of_length (by omega)
+    have eb : s = b := hs.2.eq_of_length (by omega)
+    rw [← ea, ← eb]
+  · intro h
+    subst h
+    rw [removed_plus_inserted_eq, lcs_self]; omega
+
+/-- non-vacuity / direction check of the corollaries on a concrete pair -/
+example : removed (strScript ['a', 'b', 'c'] ['b', 'd']) + inserted (strScript ['a', 'b', 'c'] ['b', 'd']) = 3 ∧
+    removed (strScript ['b', 'd'] ['a', 'b', 'c']) + inserted (strScript ['b', 'd'] ['a', 'b', 'c']) = 3 := by decide
+
 end GtModel.C11
